@@ -148,7 +148,17 @@ def run_recipe(prog):
     initial = {n: helper.dump(h) for n, h in handles.items()}
     r = Recipe()
     r.uses(*handles.values())
+    kept = {}
+
     def stage_calls(i):
+        # inside an open stage, every other step is preceded by a nested start_stage (refused: ValueError) -- a refused call changes nothing
+        for s in prog['stages']:
+            if s['start'] < i < s['stop'] and i % 2:
+                try:
+                    r.start_stage(f"nested{i}")
+                    raise AssertionError(f"start_stage inside the open stage {s['name']} was accepted")
+                except ValueError:
+                    pass
         for s in prog['stages']:
             if s['stop'] == i and s['start'] < i:
                 r.end_stage(s['name'])
@@ -175,7 +185,14 @@ def run_recipe(prog):
         if 'rect' in ref['r'] and h % 3 == 0:
             rows, cols = ref['r']['rect']
             if rows == list(range(rows[0], rows[-1] + 1)) and cols == list(range(cols[0], cols[-1] + 1)):
-                outer = pl[rows[0] + 1:rows[-1] + 1]                    # rows, 1-based inclusive
+                # the block of rows is an object the caller KEEPS (one per plate object and row range): used by an earlier step as it is,
+                # narrowed for a later one -- declaring a step must leave the caller's slice as it found it
+                key = (id(pl), rows[0], rows[-1])
+                outer = kept.get(key)
+                if outer is None:
+                    outer = kept[key] = pl[rows[0] + 1:rows[-1] + 1]   # rows, 1-based inclusive
+                if cols == list(range(pl.n_columns)) and h % 2:
+                    return outer
                 return outer[:, cols[0]:cols[-1] + 1]                   # columns of that slice, 0-based exclusive
         return pl[sel]
 
